@@ -174,11 +174,15 @@ impl Remover {
                 let end_cursor = child_markers.len()
                     - Self::merge_child_markers(child_markers.iter().rev(), &mut end_marker);
 
+                if start_cursor > end_cursor {
+                    // A child touches both the opening and the closing part, so the parts
+                    // and everything between them form a single range.
+                    acc.push((marker.start..end_marker.end.max(marker.end), None));
+                    return acc;
+                }
+
                 let current = acc.len();
-                acc.push((
-                    marker,
-                    Some(current + (end_cursor - start_cursor).max(0) + 1),
-                ));
+                acc.push((marker, Some(current + (end_cursor - start_cursor) + 1)));
                 if start_cursor < end_cursor {
                     acc.extend(child_markers[start_cursor..end_cursor].to_owned());
                 }
